@@ -145,4 +145,107 @@ theorem stepsH_fst {H : Type} (policyH : H → Policy K) (stepH : H → State K 
     rw [stepsH_fst policyH stepH hind h0 n]
     simp only [nextIterH, hind rh.2 h0]
 
+/-! ### selection rule: argsort on tie-free data -/
+
+theorem map_eq_of_injOn {α β : Type} (f : α → β) : ∀ (p q : List α), p.map f = q.map f →
+    (∀ a ∈ p, ∀ b ∈ q, f a = f b → a = b) → p = q
+  | [], [], _, _ => rfl
+  | [], _ :: _, h, _ => by simp at h
+  | _ :: _, [], h, _ => by simp at h
+  | a :: p, b :: q, h, hinj => by
+    simp only [List.map_cons, List.cons.injEq] at h
+    have hab : a = b := hinj a (List.mem_cons_self ..) b (List.mem_cons_self ..) h.1
+    rw [hab, map_eq_of_injOn f p q h.2 (fun x hx y hy => hinj x (List.mem_cons_of_mem _ hx) y (List.mem_cons_of_mem _ hy))]
+
+/-- on tie-free scores there is exactly one argsort -/
+theorem argsort_unique_of_nodup {v : List Rat} (hv : v.Nodup) {p q : List Nat}
+    (hp : IsArgsort v p) (hq : IsArgsort v q) : p = q := by
+  have hperm : (p.map (fun i => v.getD i 0)).Perm (q.map (fun i => v.getD i 0)) :=
+    (hp.1.trans hq.1.symm).map _
+  have hmap : p.map (fun i => v.getD i 0) = q.map (fun i => v.getD i 0) :=
+    List.Perm.eq_of_pairwise (le := fun a b : Rat => a ≤ b) (fun a b _ _ h1 h2 => le_antisymm h1 h2) hp.2 hq.2 hperm
+  apply map_eq_of_injOn _ p q hmap
+  intro a ha b hb hab
+  have ha' : a < v.length := List.mem_range.1 (hp.1.mem_iff.1 ha)
+  have hb' : b < v.length := List.mem_range.1 (hq.1.mem_iff.1 hb)
+  simp only [List.getD_eq_getElem?_getD, List.getElem?_eq_getElem ha', List.getElem?_eq_getElem hb',
+    Option.getD_some] at hab
+  exact (List.Nodup.getElem_inj_iff hv).1 hab
+
+/-! ### selection on an array padded with zero scores (stale points of a restart from an earlier iteration) -/
+
+/-- in a list sorted by a non-negative score, the positions with score 0 come first -/
+theorem sorted_split (f : Nat → Rat) (hf : ∀ i, 0 ≤ f i) : ∀ (l : List Nat), (l.map f).Pairwise (fun a b => a ≤ b) →
+    l = l.filter (fun i => !decide (0 < f i)) ++ l.filter (fun i => decide (0 < f i))
+  | [], _ => rfl
+  | a :: l, h => by
+    rw [List.map_cons, List.pairwise_cons] at h
+    have ih := sorted_split f hf l h.2
+    by_cases ha : 0 < f a
+    · -- everything behind `a` is positive too
+      have hall : ∀ i ∈ l, 0 < f i := fun i hi => lt_of_lt_of_le ha (h.1 (f i) (List.mem_map.2 ⟨i, hi, rfl⟩))
+      have h1 : l.filter (fun i => !decide (0 < f i)) = [] := by
+        rw [List.filter_eq_nil_iff]; intro i hi; simp [hall i hi]
+      have h2 : l.filter (fun i => decide (0 < f i)) = l := by
+        rw [List.filter_eq_self]; intro i hi; simp [hall i hi]
+      simp [ha, h1, h2]
+    · have : (a :: l).filter (fun i => !decide (0 < f i)) = a :: l.filter (fun i => !decide (0 < f i)) := by
+        simp [ha]
+      have h2 : (a :: l).filter (fun i => decide (0 < f i)) = l.filter (fun i => decide (0 < f i)) := by
+        simp [ha]
+      rw [this, h2, List.cons_append, ← ih]
+
+theorem lastK_append (k : Nat) (A B : List Nat) (hk : k ≤ B.length) : lastK k (A ++ B) = lastK k B := by
+  unfold lastK
+  rw [List.drop_append, List.length_append]
+  have h1 : A.drop (A.length + B.length - k) = [] := List.drop_eq_nil_of_le (by omega)
+  rw [h1, List.nil_append]
+  congr 1; omega
+
+/-- the positive part of an argsort is determined by the positive scores when these are pairwise different -/
+theorem positive_part_unique (n : Nat) (f g : Nat → Rat) (hfg : ∀ i, i < n → g i = f i)
+    (hg0 : ∀ i, n ≤ i → ¬ 0 < g i)
+    (hdist : ∀ i j, i < n → j < n → 0 < f i → f i = f j → i = j)
+    (p q : List Nat) (N : Nat) (hN : n ≤ N)
+    (hp : p.Perm (List.range n)) (hps : (p.map f).Pairwise (fun a b => a ≤ b))
+    (hq : q.Perm (List.range N)) (hqs : (q.map g).Pairwise (fun a b => a ≤ b)) :
+    p.filter (fun i => decide (0 < f i)) = q.filter (fun i => decide (0 < g i)) := by
+  -- both sides are permutations of the positive positions below n
+  have hq_lt : ∀ i ∈ q.filter (fun i => decide (0 < g i)), i < n := by
+    intro i hi
+    rw [List.mem_filter] at hi
+    by_contra hlt
+    exact hg0 i (by omega) (by simpa using hi.2)
+  have hmem : ∀ i, i ∈ p.filter (fun i => decide (0 < f i)) ↔ i ∈ q.filter (fun i => decide (0 < g i)) := by
+    intro i
+    constructor
+    · intro hi
+      rw [List.mem_filter] at hi ⊢
+      have hin : i < n := List.mem_range.1 (hp.mem_iff.1 hi.1)
+      exact ⟨hq.mem_iff.2 (List.mem_range.2 (by omega)), by rw [hfg i hin]; exact hi.2⟩
+    · intro hi
+      have hin := hq_lt i hi
+      rw [List.mem_filter] at hi ⊢
+      exact ⟨hp.mem_iff.2 (List.mem_range.2 hin), by rw [← hfg i hin]; exact hi.2⟩
+  have hpn : (p.filter (fun i => decide (0 < f i))).Nodup := (hp.nodup_iff.2 List.nodup_range).filter _
+  have hqn : (q.filter (fun i => decide (0 < g i))).Nodup := (hq.nodup_iff.2 List.nodup_range).filter _
+  have hperm : (p.filter (fun i => decide (0 < f i))).Perm (q.filter (fun i => decide (0 < g i))) :=
+    (List.perm_ext_iff_of_nodup hpn hqn).2 hmem
+  -- their scores are sorted
+  have hps' : ((p.filter (fun i => decide (0 < f i))).map f).Pairwise (fun a b => a ≤ b) :=
+    hps.sublist ((List.filter_sublist).map f)
+  have hqs' : ((q.filter (fun i => decide (0 < g i))).map g).Pairwise (fun a b => a ≤ b) :=
+    hqs.sublist ((List.filter_sublist).map g)
+  have hqg : (q.filter (fun i => decide (0 < g i))).map g = (q.filter (fun i => decide (0 < g i))).map f :=
+    List.map_congr_left (fun i hi => hfg i (hq_lt i hi))
+  rw [hqg] at hqs'
+  have hmap : (p.filter (fun i => decide (0 < f i))).map f = (q.filter (fun i => decide (0 < g i))).map f :=
+    List.Perm.eq_of_pairwise (le := fun a b : Rat => a ≤ b) (fun a b _ _ h1 h2 => le_antisymm h1 h2) hps' hqs'
+      (hperm.map f)
+  apply map_eq_of_injOn f _ _ hmap
+  intro a ha b hb hab
+  have ha' := List.mem_filter.1 ha
+  have han : a < n := List.mem_range.1 (hp.mem_iff.1 ha'.1)
+  exact hdist a b han (hq_lt b hb) (by simpa using ha'.2) hab
+
 end WB.C11
